@@ -30,6 +30,8 @@ func mkSuite(via string, s shape) (otp.Suite, error) {
 	}
 }
 
+func (c c05Case) SecretText() string { return ref.B32Encode(ocraKeys[c.KeyIdx%len(ocraKeys)]) }
+
 // ocraGen runs one generation and compares with the reference.  For via=="raw" the
 // reference suite is what the NAME says (independent parser), not what the library parsed.
 func ocraGen(c c05Case) (obs, bad string) {
